@@ -39,6 +39,7 @@ MulOK(e) ==
   /\ ExtValid(O)
   /\ ExtEq(O, Expected(e))
   /\ e.enc = EncodePointP(O, Certs(e))
+  /\ Has(e, "argsok") => e.argsok          \* the caller's argument slices are as they were
 
 EventOK(e) ==
   CASE e.op = "grp" -> GrpOK(e)
